@@ -11,10 +11,20 @@ use super::cffw;
 use std::io::Write;
 use vh::fontgen::{self, build_sfnt, triangle, TtFont, W};
 
-pub const NAMES: [&str; 12] = [
+pub const NAMES: [&str; 19] = [
     "synth/eblc", "synth/cblc", "synth/sbix+post1", "synth/svg+post25", "synth/kern+post4", "synth/morx", "synth/cmap+post2", "synth/var",
     "synth/cff2-fds3", "synth/cff2-fds0", "synth/cff-cid", "synth/eblc-aligned",
+    // round 4: charstrings whose operators take as many operands as the interpreter's stack holds (CFF2 513, CFF 48);
+    // variable fonts whose name strings are long and made of letters outside ASCII (every UTF-8 width, every platform
+    // `NameTable::string_for_id` decodes, each of the name ids 25 / 16 / 1 as the source of the PostScript name prefix)
+    "synth/cff2-stack", "synth/cff-stack", "synth/cff2-stack+1", "synth/cff-stack+1", "synth/var-name25", "synth/var-name16", "synth/var-name1",
 ];
+
+/// inputs that are in the run for what their *content* makes the entry points do, not for the fields of their (ordinary)
+/// variation / CFF2 tables: they are not made champions of those table kinds
+pub fn content_only(name: &str) -> bool {
+    matches!(name, "synth/cff2-stack" | "synth/cff-stack" | "synth/cff2-stack+1" | "synth/cff-stack+1" | "synth/var-name25" | "synth/var-name16" | "synth/var-name1")
+}
 
 /// table kinds a synthesized input stands for in the quick tier (every structural field x every class)
 pub fn focus(name: &str) -> &'static [&'static str] {
@@ -29,6 +39,7 @@ pub fn focus(name: &str) -> &'static [&'static str] {
         "synth/var" => &["fvar", "avar", "gvar", "cvar", "HVAR", "VVAR", "MVAR", "STAT"],
         "synth/cff2-fds3" | "synth/cff2-fds0" => &["CFF2"],
         "synth/cff-cid" => &["CFF "],
+        "synth/var-name25" => &["name"],
         _ => &[],
     }
 }
@@ -43,10 +54,17 @@ pub fn build(name: &str) -> Option<Vec<u8>> {
         "synth/kern+post4" => with_tables(8, vec![("kern".into(), kern()), ("post".into(), post(4, 8))]),
         "synth/morx" => with_tables(12, vec![("morx".into(), morx(12))]),
         "synth/cmap+post2" => with_tables(10, vec![("cmap".into(), cmap_all()), ("post".into(), post(2, 10))]),
-        "synth/var" => var_font(),
-        "synth/cff2-fds3" => cff_font(2, 3),
-        "synth/cff2-fds0" => cff_font(2, 0),
-        "synth/cff-cid" => cff_font(1, 0),
+        "synth/var" => var_font(names_for_var(), false),
+        "synth/var-name25" => var_font(long_names(25), true),
+        "synth/var-name16" => var_font(long_names(16), true),
+        "synth/var-name1" => var_font(long_names(1), true),
+        "synth/cff2-fds3" => cff_font(2, 3, 0),
+        "synth/cff2-fds0" => cff_font(2, 0, 0),
+        "synth/cff-cid" => cff_font(1, 0, 0),
+        "synth/cff2-stack" => cff_font(2, 3, 1),
+        "synth/cff-stack" => cff_font(1, 3, 1),
+        "synth/cff2-stack+1" => cff_font(2, 3, 2),
+        "synth/cff-stack+1" => cff_font(1, 3, 2),
         _ => return None,
     })
 }
@@ -1033,7 +1051,72 @@ fn names_for_var() -> Vec<u8> {
     fontgen::name(&[(1, "Verif"), (2, "Regular"), (4, "Verif Regular"), (6, "Verif-Regular"), (256, "Weight"), (257, "Width"), (258, "Regular"), (259, "Black Wide"), (260, "Regular"), (261, "Bold"), (262, "Normal"), (263, "Black Condensed")])
 }
 
-fn var_font() -> Vec<u8> {
+/// a name table whose records sit on one platform: (platform, encoding, language) and (name id, string bytes in the
+/// encoding of that platform)
+fn name_table(plat: (u16, u16, u16), recs: &[(u16, Vec<u8>)]) -> Vec<u8> {
+    let mut w = W::new();
+    let mut storage: Vec<u8> = Vec::new();
+    w.u16(0).u16(recs.len() as u16).u16(6 + 12 * recs.len() as u16);
+    for (id, b) in recs {
+        w.u16(plat.0).u16(plat.1).u16(plat.2).u16(*id).u16(b.len() as u16).u16(storage.len() as u16);
+        storage.extend(b);
+    }
+    w.bytes(&storage);
+    w.done()
+}
+
+fn utf16(s: &str) -> Vec<u8> {
+    s.encode_utf16().flat_map(|u| u.to_be_bytes()).collect()
+}
+
+/// Name strings that are long (more bytes than a PostScript name may have: 63, and than the 127 of the older limit
+/// once decoded) and made of letters and digits outside ASCII.  `src` = the name id the family name / PostScript name
+/// prefix of an instance is taken from (25 = variations PostScript name prefix, else 16 = typographic family, else 1 =
+/// family): the records above it are left out.  The three fonts differ in platform and in the width of the letters once
+/// decoded to UTF-8, and their ASCII lead-in differs in length, so that between them every byte index from 1 up to the
+/// length of the string is *inside* a character of one of them:
+///   25: Windows BMP (3, 1, 0x409), two-byte letters (Latin-1, Greek, Cyrillic) - character boundaries at even indices
+///   16: Unicode (0, 4, 0), surrogate pairs = four-byte letters after one ASCII letter - boundaries at 1 + 4 k
+///    1: Macintosh Roman (1, 0, 0), the bytes DE / DF (the ligatures fi / fl: three bytes) after two ASCII letters -
+///       boundaries at 2 + 3 k
+/// The sub-family and axis value names carry letters outside ASCII too.
+fn long_names(src: u16) -> Vec<u8> {
+    let axis_names = ["Wéight", "Wïdth", "Régular", "Blåck Wïde", "Régular", "Bøld", "Nørmal", "Blåck Cøndensed"];
+    match src {
+        25 | 16 => {
+            let two: String = "ЖßéΩжÑøλ".chars().cycle().take(44).collect();
+            let four: String = std::iter::once('V').chain((0..26u32).map(|k| char::from_u32(0x1D400 + k).unwrap())).collect();
+            let mut recs: Vec<(u16, String)> = vec![(1, "Vérif".into()), (2, "Régular".into()), (4, "Vérif Régular".into()), (6, "Verif-Regular".into())];
+            if src == 25 {
+                recs.push((16, "Vérif Ünïcøde".into()));
+                recs.push((17, "Régular".into()));
+                recs.push((25, two));
+            } else {
+                recs.push((16, four));
+                recs.push((17, "Régular".into()));
+            }
+            for (k, a) in axis_names.iter().enumerate() {
+                recs.push((256 + k as u16, a.to_string()));
+            }
+            let recs: Vec<(u16, Vec<u8>)> = recs.iter().map(|(id, s)| (*id, utf16(s))).collect();
+            name_table(if src == 25 { (3, 1, 0x409) } else { (0, 4, 0) }, &recs)
+        }
+        _ => {
+            let mut fam = b"Ve".to_vec();
+            fam.extend((0..40).map(|k| if k % 2 == 0 { 0xDEu8 } else { 0xDF }));
+            let mut recs: Vec<(u16, Vec<u8>)> = vec![(1, fam), (2, b"R\x8Egular".to_vec()), (4, b"V\x8Erif R\x8Egular".to_vec()), (6, b"Verif-Regular".to_vec())];
+            // Macintosh Roman: 8E = e acute, 95 = i diaeresis, 8C = a ring, BF = o slash
+            let axis: [&[u8]; 8] = [b"W\x8Eight", b"W\x95dth", b"R\x8Egular", b"Bl\x8Cck W\x95de", b"R\x8Egular", b"B\xBFld", b"N\xBFrmal", b"Bl\x8Cck C\xBFndensed"];
+            for (k, a) in axis.iter().enumerate() {
+                recs.push((256 + k as u16, a.to_vec()));
+            }
+            name_table((1, 0, 0), &recs)
+        }
+    }
+}
+
+/// `lean`: without cvt / cvar / VVAR / vhea / vmtx / MVAR (the fonts that are in the run for their name strings)
+fn var_font(names: Vec<u8>, lean: bool) -> Vec<u8> {
     let n = 5;
     let mut f = base(n);
     let mut cvt = W::new();
@@ -1056,15 +1139,213 @@ fn var_font() -> Vec<u8> {
         ("vmtx".into(), vmtx.done()),
         ("MVAR".into(), mvar()),
         ("STAT".into(), stat()),
-        ("name".into(), names_for_var()),
+        ("name".into(), names),
     ];
+    if lean {
+        f.extra_tables.retain(|t| !["cvt ", "cvar", "VVAR", "vhea", "vmtx", "MVAR"].contains(&t.0.as_str()));
+    }
     f.build()
 }
 
 // ---- CFF2 with several Font DICTs, CID-keyed CFF ---------------------------------------------------------------------------------------
 
+/// Private DICT entries (CFF2, Font DICT 0: one region) that fill the fixed-size buffers of a DICT reader / instancer:
+/// `stack` 1: BlueValues = blend of two values whose first is a real number of exactly 64 characters (the buffer a real
+/// number is converted through holds 64) and StemSnapH = blend of 256 values with one delta each (513 operands, the most a
+/// CFF2 DICT operator may have); `stack` 2: real numbers of 65 characters, and of 63 characters followed by the nibble that
+/// stands for the two characters "E-" (an error is the expected answer of the instancer; the table itself still loads).
+fn dict_fill(stack: u8) -> Vec<u8> {
+    // real number "1." + zeros, `chars` characters long (+ optionally the nibble c = "E-" and a digit), end nibble f
+    let real = |chars: usize, eminus: bool| -> Vec<u8> {
+        let mut nib: Vec<u8> = vec![1, 0xA];
+        nib.extend(std::iter::repeat(0).take(chars - 2));
+        if eminus {
+            nib.extend([0xC, 1]);
+        }
+        nib.push(0xF);
+        if nib.len() % 2 == 1 {
+            nib.push(0xF);
+        }
+        let mut v = vec![30u8];
+        v.extend(nib.chunks(2).map(|c| (c[0] << 4) | c[1]));
+        v
+    };
+    let int = |v: i32| cffw::dict_int(v);
+    let mut d = Vec::new();
+    match stack {
+        1 => {
+            d.extend(real(64, false));
+            d.extend(int(10));
+            d.extend(real(20, false));
+            d.extend(int(1));
+            d.extend(int(2));
+            d.push(23);
+            d.push(6);
+            for _ in 0..512 {
+                d.extend(int(1));
+            }
+            d.extend(int(256));
+            d.push(23);
+            d.extend([12, 12]);
+        }
+        2 => {
+            d.extend(real(65, false));
+            d.extend(int(10));
+            d.extend(real(63, true));
+            d.extend(int(1));
+            d.extend(int(2));
+            d.push(23);
+            d.push(6);
+        }
+        _ => {}
+    }
+    d
+}
+
+/// Charstrings that fill the interpreter's operand stack: for every Type 2 operator of variable arity one glyph that hands
+/// it the largest number of operands the stack holds (CFF2: 513, CFF: 48) in a form the operator accepts - the path
+/// operators after a moveto, the stem operators and the hint mask with its implied vstem before it, blend (CFF2) with the
+/// region count of either Font DICT -, hvcurveto again with the operands pushed by the glyph and the operator inside a
+/// global subroutine (the subroutine number is then the topmost operand).  `over`: instead, glyphs with one operand more
+/// than the stack holds - handed to rlineto, to hvcurveto, and to the hvcurveto of the subroutine (an error is the expected
+/// answer; they are in fonts of their own because one such glyph makes every whole-font operation fail).  Operands are written in the three number formats in turn (one byte,
+/// 28 + i16, 255 + 16.16).  Glyph k of the result is glyph 6 + k of the font: even glyphs belong to Font DICT 0 (one
+/// region), odd ones to Font DICT 1 (two regions).
+/// The forms in which the Type 2 operators of variable arity take their operands - (operator, m, rems, room): k operands
+/// are accepted iff k % m is in rems; `room` = places of the stack taken by something else (the number of the subroutine
+/// the operator sits in) - with the count that fills a stack of 48 (CFF) / 513 (CFF2): the harness' copy of
+/// `FaultModel!OperatorForms` / `FillCount`, compared with TLC's FILL lines by `c01_faults replay`.
+pub fn fill_table(cff2: bool) -> Vec<(u8, usize, Vec<usize>, usize, usize)> {
+    let limit: usize = if cff2 { 513 } else { 48 };
+    let mut forms: Vec<(u8, usize, Vec<usize>, usize)> = vec![
+        (5, 2, vec![0], 0),
+        (6, 1, vec![0], 0),
+        (7, 1, vec![0], 0),
+        (8, 6, vec![0], 0),
+        (24, 6, vec![2], 0),
+        (25, 2, vec![0], 0),
+        (26, 4, vec![1], 0),
+        (26, 4, vec![0], 0),
+        (27, 4, vec![1], 0),
+        (27, 4, vec![0], 0),
+        (30, 4, vec![1], 0),
+        (30, 4, vec![0], 0),
+        (31, 4, vec![1], 0),
+        (31, 4, vec![0], 0),
+        (1, 2, vec![0], 0),
+        (3, 2, vec![0], 0),
+        (18, 2, vec![0], 0),
+        (23, 2, vec![0], 0),
+        (31, 4, vec![0, 1], 1),
+    ];
+    if cff2 {
+        forms.push((16, 2, vec![1], 0));
+        forms.push((16, 3, vec![1], 0));
+    }
+    forms
+        .into_iter()
+        .map(|(op, m, rems, room)| {
+            let k = (1..=limit - room).rev().find(|k| rems.contains(&(k % m))).expect("some count fits");
+            (op, m, rems, room, k)
+        })
+        .collect()
+}
+
+fn stack_glyphs(cff2: bool, over: bool) -> Vec<Vec<u8>> {
+    let limit: usize = if cff2 { 513 } else { 48 };
+    let nums = |k: usize| -> Vec<u8> {
+        let mut v = Vec::new();
+        for i in 0..k {
+            match i % 3 {
+                0 => v.push(140),
+                1 => v.extend([28, 0, 2]),
+                _ => v.extend([255, 0, 1, 0, 0]),
+            }
+        }
+        v
+    };
+    let fin = |mut cs: Vec<u8>| -> Vec<u8> {
+        if !cff2 {
+            cs.push(14);
+        }
+        cs
+    };
+    let moveto = || -> Vec<u8> {
+        let mut v = cffw::dict_int(10);
+        v.extend(cffw::dict_int(20));
+        v.push(21);
+        v
+    };
+    let mut out: Vec<Vec<u8>> = Vec::new();
+    if over {
+        for op in [5u8, 31] {
+            let mut cs = moveto();
+            cs.extend(nums(limit + 1));
+            cs.push(op);
+            out.push(fin(cs));
+        }
+        let mut cs = moveto();
+        cs.extend(nums(limit));
+        cs.extend(cffw::dict_int(-105));
+        cs.push(29);
+        out.push(fin(cs));
+        return out;
+    }
+    let forms = fill_table(cff2);
+    for (op, _, _, _, k) in forms.iter().filter(|f| f.3 == 0 && ![1u8, 3, 18, 23, 16].contains(&f.0)) {
+        let mut cs = moveto();
+        cs.extend(nums(*k));
+        cs.push(*op);
+        out.push(fin(cs));
+    }
+    // stems: hstemhm with a full stack, then as many again as the implied vstem of the hint mask
+    for (op, mask) in [(1u8, false), (3, false), (18, true), (23, true)] {
+        let k = forms.iter().find(|f| f.0 == op).expect("stem form").4;
+        let mut cs = nums(k);
+        cs.push(op);
+        let mut stems = k / 2;
+        if mask {
+            cs.extend(nums(k));
+            stems += k / 2;
+            cs.push(19);
+            cs.extend(vec![0xAA; (stems + 7) / 8]);
+        }
+        cs.extend(moveto());
+        cs.extend(nums(2));
+        cs.push(5);
+        out.push(fin(cs));
+    }
+    // hvcurveto inside global subroutine 2 (biased number -105): the operands come from the glyph
+    {
+        let k = forms.iter().find(|f| f.3 == 1).expect("subroutine form").4;
+        let mut cs = moveto();
+        cs.extend(nums(k));
+        cs.extend(cffw::dict_int(-105));
+        cs.push(29);
+        out.push(fin(cs));
+    }
+    if cff2 {
+        // blend of n values with k deltas each: n (k + 1) + 1 operands; two glyphs, one per Font DICT (k = 1, 2)
+        for _ in 0..2 {
+            let g = 6 + out.len();
+            let k = if g % 2 == 0 { 1 } else { 2 };
+            let total = forms.iter().find(|f| f.0 == 16 && f.1 == k + 1).expect("blend form").4;
+            let n = (total - 1) / (k + 1);
+            let mut cs = moveto();
+            cs.extend(nums(n * (k + 1)));
+            cs.extend(cffw::dict_int(n as i32));
+            cs.push(16);
+            cs.push(if n % 2 == 0 { 5 } else { 6 });
+            out.push(cs);
+        }
+    }
+    out
+}
+
 /// `kind` 2 = CFF2 (FDSelect format `fds_fmt`), 1 = CID-keyed CFF (FDSelect format `fds_fmt`)
-fn cff_font(kind: u8, fds_fmt: u8) -> Vec<u8> {
+/// `stack` 1 / 2: after the six ordinary glyphs come the glyphs of `stack_glyphs(.., over = stack == 2)` (global
+/// subroutine 2 is the bare hvcurveto they call).
+fn cff_font(kind: u8, fds_fmt: u8, stack: u8) -> Vec<u8> {
     let n = 6usize;
     let cff2 = kind == 2;
     let num = |v: i32| cffw::dict_int(v);
@@ -1104,14 +1385,20 @@ fn cff_font(kind: u8, fds_fmt: u8) -> Vec<u8> {
         }
         glyphs.push(cs);
     }
+    let mut gsubrs = vec![subr.clone(), subr.clone()];
+    if stack > 0 {
+        glyphs.extend(stack_glyphs(cff2, stack == 2));
+        gsubrs.push(if cff2 { vec![31] } else { vec![31, 11] });
+    }
+    let n = glyphs.len();
     let fds = vec![
-        cffw::FdSpec { lsubrs: Some(vec![subr.clone(), subr.clone()]), vsindex: if cff2 { Some(0) } else { None }, private_extra: vec![] },
+        cffw::FdSpec { lsubrs: Some(vec![subr.clone(), subr.clone()]), vsindex: if cff2 { Some(0) } else { None }, private_extra: if cff2 { dict_fill(stack) } else { vec![] } },
         cffw::FdSpec { lsubrs: Some(vec![subr.clone()]), vsindex: if cff2 { Some(1) } else { None }, private_extra: vec![] },
     ];
     let spec = cffw::CffSpec {
         cid: !cff2,
         glyphs,
-        gsubrs: vec![subr.clone(), subr],
+        gsubrs,
         fds,
         fdselect: (0..n).map(|g| (g % 2) as u8).collect(),
         fdselect_fmt: fds_fmt,
